@@ -7,6 +7,16 @@ props = [json.loads(l)['id'] for l in open(os.path.join(HERE, 'properties.jsonl'
 TB = "Trusted: go/types+go/ssa (x/tools v0.29.0), this checker's analyses, frozen tables of external callees, type-based alias classes (no unsafe/reflect, checked by C18), closed-world assumptions listed in the evidence."
 
 CHECKS = {
+ "C01": dict(cat="other",
+   text="Decides structural necessary conditions of the protected round trip, not the value-level equality: sender role r and receiver role not-r use the same cipher/MAC objects and these follow the RFC 7296 2.14 table; each SA object is keyed with its own key through the SA's own descriptor; plain fallbacks are taken exactly without key / without leading SK; both header arms hand msg[28:] and the header's next-payload to the chain walker; the inner chain is linked through Encrypted.NextPayload and exactly L checksum octets are appended and stripped. Breaking any of these breaks the round trip; AES/HMAC inversion and the plain codec are other properties.",
+   ref="DESIGN.md 4 C01",
+   note=TB,
+   tech="static analysis: role-to-key tables from branch structure, dominance, linear-form comparison of slice bounds, call-chain argument tracing"),
+ "C02": dict(cat="other",
+   text="Decides the structural conditions that make tamper rejection follow from HMAC security: verify-before-decrypt by dominance on the nil-error edge, who-may-call chain for the cipher, whole-slice comparison of exactly L received vs L computed octets on the equal edge only, MAC input = datagram[0 : len-L] traced through three call levels, peer-direction keys, error discipline of every failing step, and a panic-freedom proof (E2) of the unprotect path. Does not decide HMAC strength.",
+   ref="DESIGN.md 4 C02",
+   note=TB + " HMAC is a secure MAC; hmac.Equal compares whole slices.",
+   tech="static analysis: must-pass-through / dominance, who-may-call, slice-span linear forms, error-discipline paths, E2 bounds prover"),
  "C04": dict(cat="proof",
    text="Every index, slice (against len, not cap), make, type assertion, division, map update, nil-merging dereference, external-callee precondition and loop in the functions reachable from the decode entry points is an obligation; all are discharged by a sound (incomplete) wrap-aware linear-arithmetic prover over dominating guards and by five loop-variant templates. Proof of the enumerated obligation classes, not of the standard library.",
    ref="DESIGN.md 3.3, 4 C04",
